@@ -78,7 +78,7 @@ SCmd ==
          healthy == e.misb = "none"
          \* the state follows the reply the card actually gave
          r1 == IF e.misb = "silent" THEN -1 ELSE e.r1
-         cn == IF e.misb \in {"silent", "r1err"} THEN [c EXCEPT !.app = FALSE, !.last = e.idx]
+         cn == IF e.misb \in {"silent", "r1err", "r1ill", "r1crc"} THEN [c EXCEPT !.app = FALSE, !.last = e.idx]
                ELSE CardNext(c, cfg.kind, cfg.nblocks, e, e.r1)
          dataBad == e.data.what # "none" /\ ~e.data.intact
          er == IF "erased" \in DOMAIN e THEN e.erased ELSE 0
@@ -104,7 +104,7 @@ SCmd ==
         /\ c14' = (c14 \/ (legal # "ok" /\ alive))
         /\ dl' = IF e.data.what # "none" THEN Append(dl, DataStatus(e.data)) ELSE dl
         /\ stuck' = IF e.idx = 0 /\ e.r1 = 1 THEN FALSE ELSE stuck
-        /\ lost' = IF e.idx = 0 /\ e.r1 = 1 THEN FALSE ELSE (lost \/ (e.misb \in {"silent", "r1err"} /\ c.mode # "Cmd"))
+        /\ lost' = IF e.idx = 0 /\ e.r1 = 1 THEN FALSE ELSE (lost \/ (e.misb \in {"silent", "r1err", "r1ill", "r1crc"} /\ c.mode # "Cmd"))
   /\ first' = FALSE
   /\ l' = l + 1
   /\ UNCHANGED <<sid, cfg, exp, call, alive, nst>>
